@@ -26,13 +26,13 @@ ASSUMPTIONS = [
 
 
 def mon(text, run, run_ra):
-    import eyecite.helpers as H
+    import datetime
     if run_ra is None or run_ra["out"][0] != "ok":
         cs_ra = None
     else:
         cs_ra = run_ra["out"][1]
     cs = run["out"][1]
-    bad = P.monitor_years(cs, cs_ra if cs_ra is not None else [c for c in cs if not hasattr(c, "edition_guess") or c.edition_guess], H._highest_valid_year)
+    bad = P.monitor_years(cs, cs_ra if cs_ra is not None else [c for c in cs if not hasattr(c, "edition_guess") or c.edition_guess], datetime.date.today().year + 1)   # 'next year', from the property text, not from the module
     return ("joke-cite" if text == "eyecite" else None, bad) if bad else None
 
 
